@@ -103,7 +103,9 @@ CHECKS = {
             'object before/after each call, result digest, numpy global-generator digest, call key) and every event is judged by '
             'TLC against Frame / Memo (history variable) / RngIsolation / Continuity, with total verdicts. PlaneHist.tla models '
             'one plane under OPD updates, ramps, tilt fits and copies; TLC enumerates all short histories and samples long ones, '
-            'each is replayed on a real Pupil and every observation must equal the exact field of the effective state.',
+            'each is replayed on a real Pupil and every observation must equal the exact field of the effective state. The sessions are '
+            'recorded a second time by a fresh process in reverse session order and both recordings are validated as ONE trace, so Memo '
+            'ranges over two histories of the library\'s module-level state.',
             'DESIGN.md 5 C10',
             'Trusted: digest() canonical content digests; the call menu in drivers/c10.py; OPD arrays handed to constructors are '
             'private copies. The binding self-test (corrupted digest, dropped event, changed result must be rejected) runs in '
@@ -181,7 +183,7 @@ CHECKS = {
             'table states which observations each callable must satisfy (support, integer values, floor(rate) without pattern noise, zero '
             'outside the mask, exact RMS, rejection of negative / unrepresentable signals). Sessions with repeated and different seeds '
             '(incl. 0 and sequences), perturbed global state, masks of five aspect ratios and 64 [256] enumerated global seeds for cosmic '
-            'rays are recorded on lentil and validated by TLC.',
+            'rays are recorded on lentil - once in plan order, once in reverse order by a fresh process - and validated by TLC as one trace.',
             'DESIGN.md 5 C18',
             'Trusted: predicates evaluated by the recorder on the returned frames; byte digests identify draws. Mean / variance / standard '
             'deviation clauses are statistical and NOT decided by the model (6-sigma numeric leaf on 400x400 frames with fixed seeds).',
